@@ -36,7 +36,8 @@ _GENERIC = ("Deductive tier: the contracts tagged with this property are dischar
 prop("C02", "other", _GENERIC + "Proved: wire Parser primitives every codec is built on (exact consumption, FormError on short input) and "
      "the relational wire round trip of 24 record classes discovered by walking dns/rdtypes (for arbitrary octets w: if decode(w) "
      "returns x having consumed w, encode(x) cannot fail and decode(encode(x)) equals x field by field, consuming exactly, so the "
-     "encoding is a fixed point). Classes with embedded names, item loops, address text or floats are listed in "
+     "encoding is a fixed point); the constructors' field validators Rdata._as_uint8/16/32/48, _as_int and _as_ttl accept exactly the "
+     "field's wire range and return the value unchanged. Classes with embedded names, item loops, address text or floats are listed in "
      "contracts/rdtypes.py:NOT_ATTEMPTED with the reason and are covered by the bounded stand-in only.", needs_obligations=True)
 prop("C03", "other", _GENERIC + "Proved: rcode/opcode flag codecs and their round-trip lemmas; Renderer._rollback (buffer cut, table "
      "purged: no entry at or beyond the cut survives, entries below it are untouched), _set_section, add_question (removed whole on "
